@@ -224,7 +224,8 @@ def run(oc, tier, seed, model_available, escalate):
         if not wf_whole(mbs, hdr, 0, rates, hl):
             oc.count("excluded: ill-formed parameters (k<1 or no parity and no hash)")
             continue
-        for size in (sizes if mbs in (5, 255) or (tier == "thorough" and mbs == 50) else sizes[::(3 if tier == "quick" else 8)]):
+        for size in (sizes if (tier == "quick" and mbs in (5, 255)) or (tier == "thorough" and mbs == 255) else
+                     sizes[::(3 if tier == "quick" else (4 if mbs in (5, 50) else 16))]):
             if mbs <= 3 and size > 600:
                 continue
             content = bytes(size) if rng.random() < 0.8 else bytes(rng.randrange(256) for _ in range(size))
